@@ -9,6 +9,50 @@ from ..match import pmatch, find
 from .common import where, run_id_typestate
 
 
+def site_index_ok(fi, node, arg):
+    """`arg` is the site being unrolled: an affine expression v + c in the variable v of an ENCLOSING loop over
+    range(a, b) (possibly reversed) with a + c == 0 and b + c == length; lengths asserted in the function
+    (`assert len(X) == e`) are used as facts"""
+    a = try_affine(arg)
+    if a is None:
+        return False
+    facts = {}
+    for s_ in ast.walk(fi.node):
+        if isinstance(s_, ast.Assert) and isinstance(s_.test, ast.Compare) and len(s_.test.ops) == 1 and \
+                isinstance(s_.test.ops[0], ast.Eq) and isinstance(s_.test.left, ast.Call) and norm(s_.test.left.func) == 'len':
+            v = try_affine(s_.test.comparators[0])
+            if v is not None:
+                facts[norm(s_.test.left.args[0])] = v
+    for l in enclosing_loops(fi.node, node):
+        if not (isinstance(l, ast.For) and isinstance(l.target, ast.Name) and a.coeff(l.target.id) == 1 and
+                a.syms() == {l.target.id}):
+            continue
+        it = l.iter
+        if isinstance(it, ast.IfExp):
+            its = [it.body, it.orelse]
+        else:
+            its = [it]
+        good = True
+        for x in its:
+            if isinstance(x, ast.Call) and norm(x.func) == 'reversed' and len(x.args) == 1:
+                x = x.args[0]
+            if not (isinstance(x, ast.Call) and norm(x.func) == 'range' and 1 <= len(x.args) <= 2):
+                good = False
+                break
+            lo = try_affine(x.args[0], len_syms=facts) if len(x.args) == 2 else Affine.const(0)
+            hi = try_affine(x.args[-1], len_syms=facts)
+            if lo is None or hi is None:
+                good = False
+                break
+            c = Affine.const(a.c)
+            if not (lo + c == Affine.const(0) and hi + c == Affine.sym('length')):
+                good = False
+                break
+        if good:
+            return True
+    return False
+
+
 def rule_R2(chk, repo):
     rid = 'C17.R2'
     chk.rule(rid, 'callable dispatch: every read of `.active` / `.opics` of an automaton edge inside from_automaton '
@@ -54,10 +98,12 @@ def rule_R2(chk, repo):
             base = norm(r)
             t = ifexp.test
             body, orelse = ifexp.body, ifexp.orelse
+            # the index is the variable of an ENCLOSING loop over range(length) (not merely a name that some other loop
+            # over the sites uses)
             ok = (isinstance(t, ast.Call) and norm(t.func) == 'isinstance' and len(t.args) == 2 and
                   norm(t.args[0]) == base and norm(t.args[1]) == 'Callable' and
                   isinstance(body, ast.Call) and norm(body.func) == base and len(body.args) == 1 and
-                  isinstance(body.args[0], ast.Name) and body.args[0].id in site_vars and norm(orelse) == base)
+                  site_index_ok(fi, ifexp, body.args[0]) and norm(orelse) == base)
             detail = f'`{norm(ifexp)[:100]}`'
         chk.ob(rid, where(repo, fi, r), f'read of `{norm(r)}` goes through the site-indexed callable dispatch', ok,
                detail, key=f'{rid}|{norm(ifexp) if ifexp is not None else norm(r)}|{count}')
@@ -470,6 +516,10 @@ def run(chk, repo, tier):
     rule_R7(chk, repo)
     from . import kronrule
     kronrule.analyse(chk, repo, 'C17.R6')
+    from . import support
+    support.graph_table_rules(chk, repo, 'C17.R8')
+    from .C16 import rule_R6 as edge_sum_rule
+    edge_sum_rule(chk, repo, 'C17.R9', 'opgraph.OpGraphEdge.__init__')
     chk.undecided += ['denotation of the unrolled graph (sum over automaton paths / padded trees)',
                       'dense meaning of chains, trees and graphs under an operator map']
     return ('Static rules over opgraph.py (from_automaton, tree insertion): id typestate, callable dispatch at the '
